@@ -234,6 +234,33 @@ impl C08 {
                 }
             }
         }
+        // permissions: changed only by an admin's SetPermissions, only for its target, to what was asked for
+        h.out.oracle_checks += 1;
+        match op {
+            Op::SetPerm { spender, perm } if ok => {
+                let admin_now = pre.admins.iter().any(|a| a == sender);
+                if !h.check(admin_now, "C08/permissions/set_permissions/accepted-from-non-admin", || format!("{sender} is not an admin")) {
+                    return false;
+                }
+                let mut want = pre.perms.clone();
+                want.insert(spender.clone(), *perm);
+                if !h.check(post.perms == want, "C08/permissions/set_permissions/stored-permissions-differ-from-request", || {
+                    format!("asked {perm:?} for {spender}; before {:?}, after {:?}", pre.perms, post.perms)
+                }) {
+                    return false;
+                }
+                if pre.perms.contains_key(spender) {
+                    h.out.count("permissions_replaced");
+                }
+            }
+            _ => {
+                if !h.check(pre.perms == post.perms, &format!("C08/permissions/{}/changed-without-an-admin-set_permissions", op.kind()), || {
+                    format!("{:?} -> {:?} in {} by {sender} (ok={ok})", pre.perms, post.perms, op.kind())
+                }) {
+                    return false;
+                }
+            }
+        }
         // what clients can see (point queries and listings, expired grants hidden) is the stored state
         h.out.oracle_checks += 1;
         if let Some(d) = p.queries_disagree(&post) {
